@@ -4,7 +4,7 @@ import LLRP.Model.Command
 
 All theorems are about `LLRP.Command` (hand-written model of `handleReadCommands`, `handleWriteCommands`, `TrySend`'s
 `SetReaderConfig` rewriting). The model is tied to the source by
-* `switch_matches_model`, `ka_source`, `ka_is_half_timeout`, `codes_defined`: `decide`d over tables and constants regenerated
+* `switch_matches_model`, `ka_is_half_timeout`, `codes_defined`: `decide`d over tables and constants regenerated
   from driver.go / device.go / pkg/llrp on every run (`Gen.cmdCasesT`, `Gen.drv_*`, `Gen.msgConsts`);
 * the differential run of the real handlers against a scripted reader (checks/c14.py).
 `Doc` is the README's command table; `wellFormed` is what the README requires of a command.
@@ -35,12 +35,6 @@ theorem ka_is_half_timeout :
     Gen.drv_keepAliveInterval * Gen.drv_maxMissedKAs = Gen.drv_clientTimeoutNs ∧
     2 * (kaMs * 1000000) = Gen.drv_clientTimeoutNs ∧
     kaMs = 30000 ∧ kaPeriodic = 1 := by decide
-
-/-- the value `TrySend` enforces and the value `onConnect` sends are both `Millisecs32(keepAliveInterval.Milliseconds())`
-with the periodic trigger (source text of the two sites) — this is what `kaMs`/`kaPeriodic` stand for -/
-theorem ka_source :
-    Gen.drv_trySendKA = "llrp.Millisecs32(keepAliveInterval.Milliseconds())" ∧
-    Gen.drv_onConnectKA = "Trigger=llrp.KATriggerPeriodic,Interval=llrp.Millisecs32(keepAliveInterval.Milliseconds())" := by decide
 
 /-! ## the switch statements (T) -/
 
